@@ -35,8 +35,21 @@ def generate(seed, tier="quick"):
     driver = "plugin" if sub(seed, "driver").random() < 0.10 else "inline"
     prof = V.draw_profile(sub(seed, "profile"))
     prof.special = [s for s in prof.special if s != "norepr"]
-    prog = W.gen_program(rng, prof, {"prev": PREV, "n_sites": (1, 6), "n_tests": (1, 3), "styles": ["assert", "assert", "rec"],
-                                     "raise_events": 0.15, "hand": 0.4})
+    o = {"prev": PREV, "n_sites": (1, 6), "n_tests": (1, 3), "styles": ["assert", "assert", "rec"], "raise_events": 0.15, "hand": 0.4}
+    multi = driver == "plugin" and sub(seed, "multifile").random() < 0.6
+    if multi:
+        o["n_files"] = (2, 3)
+    prog = W.gen_program(rng, prof, o)
+    if multi:
+        # several files in one session: every file has something to create, the file that runs last has nothing to fix
+        # (the approval step at session end walks over the files once per category)
+        fs = sorted(prog["files"], key=lambda f: f["name"])
+        for f in fs:
+            if not any(s["arg"] is None for s in f["sites"].values()):
+                s = next(iter(f["sites"].values()))
+                s["arg"], s["prev"] = None, None
+        for s in fs[-1]["sites"].values():
+            s["arg"], s["prev"] = None, None
     drng = sub(seed, "dictedit")
     if drng.random() < 0.35:
         # a dict / constructor call where one entry is renamed (delete + insert at the same place) and another entry is
